@@ -60,7 +60,7 @@ def exhaustive_cases(ctx, limit=None):
 
 def run(ctx):
     g = qgen.Gen(ctx.rng)
-    n = 4000 if ctx.tier == 'quick' else 120000
+    n = 4000 if ctx.tier == 'quick' else 500000
     cases = [gen_case(ctx, g) for _ in range(n)]
     cases += exhaustive_cases(ctx, limit=3000 if ctx.tier == 'quick' else None)
     ctx.exhaustive = False
